@@ -2,7 +2,7 @@
    Statement-only file.  Model: Query/Phrase.v (line-level bigram chain).  Spec: Query/Phrase_Spec.v. *)
 From Coq Require Import Sorted.
 From SA Require Import Base.Prelude Codec.Codec_Spec Index.Index Query.Phrase Query.Phrase_Spec
-  Query.Phrase_Proofs Query.Phrase_Proofs2 Query.Phrase_Proofs3 Query.Phrase_Final Index.Index_Spec Query.Phrase_Repeats.
+  Query.Phrase_Proofs Query.Phrase_Proofs2 Query.Phrase_Proofs3 Query.Phrase_Final Index.Index_Spec Query.Phrase_Repeats View.View_Phrase3.
 Open Scope N_scope.
 
 (* MAIN THEOREM: for every corpus within the limits, every batch size, every phrase of two or more terms in which
@@ -69,3 +69,11 @@ Theorem C03_every_phrase_bounds : forall docs bs ph, wf_docs docs -> (2 <= lengt
       nonoverlapping ph (nth d docs []) <= nth d res 0 <= occ ph (nth d docs []).
 Proof. exact phrase_repeats_bounds. Qed.
 Print Assumptions C03_every_phrase_bounds.
+
+(* the EXACT count holds for every phrase that mentions two different terms (immediate repetitions allowed: 'a a b',
+   'b a a a'): such a phrase cannot match at two adjacent offsets.  Only a^k is left to the bounds above. *)
+Theorem C03_exact_count_unless_one_repeated_term : forall docs bs ph, wf_docs docs -> (2 <= length ph)%nat ->
+  is_const ph = false ->
+  exists ix, index false bs docs = AOk ix /\ phrase_freqs ix ph = AOk (phrase_spec docs ph).
+Proof. exact phrase_exact_nonconst_on_index. Qed.
+Print Assumptions C03_exact_count_unless_one_repeated_term.
